@@ -88,6 +88,22 @@ impl<'a> Info<'a> {
     }
 }
 
+/// Verification hook (only with `--cfg fancy_regex_verif`): the analysis results of the pattern
+/// proper (the tree produced by `wrap_tree` minus the wrapper), one entry per node in pre-order:
+/// (min_size, const_size, hard, start_group, end_group).
+#[cfg(fancy_regex_verif)]
+pub fn verif_facts_preorder(wrapped: &Info<'_>) -> Vec<(usize, bool, bool, usize, usize)> {
+    fn walk(info: &Info<'_>, out: &mut Vec<(usize, bool, bool, usize, usize)>) {
+        out.push(info.verif_facts());
+        for child in info.verif_children() {
+            walk(child, out);
+        }
+    }
+    let mut out = Vec::new();
+    walk(&wrapped.children[1].children[0], &mut out);
+    out
+}
+
 struct Analyzer<'a> {
     backrefs: &'a BitSet,
     group_ix: usize,
